@@ -598,7 +598,52 @@ class Reader(Common):
         f.recv = recv
         return f
 
+    def env_get(self, key):
+        if key in self.env:
+            return self.env[key]
+        if key.startswith("self."):
+            for k, v in self.env.items():
+                if k.startswith("self.") and norm_slot(k[5:]) == norm_slot(key[5:]):
+                    return v            # `self.secret = ...` goes through the setter to `self._secret`
+        return None
+
+    def alternatives_if(self, st, obj, ver):
+        """`X = self.<f>_factory.create(v)` ... `if self.is_tag_next(X.tag, s): X.read(s) else: raise`: the child's
+        class and tag are chosen by a value read earlier; one optional field per class the factory can return (exactly
+        one of them is required: more lenient, marked)"""
+        call = self.env_get(src(obj))
+        fs = self.o.factory(call) if isinstance(call, ast.Call) else None
+        if not fs or len(fs) < 2 or len({t for t, _ in fs}) != len(fs):
+            return False
+        rd = None
+        for s in st.body:
+            c = call_of(s)
+            if c is not None and method_call(c, "read") is not None:
+                self.check_read_args(c, s)
+                if rd is not None or self.env_get(src(method_call(c, "read"))) is not call:
+                    raise Unrecognised("the object read under the test is not the one whose tag was tested", s)
+                rd = method_call(c, "read")
+            elif self.record_assign(s) and not self.touches_stream(s):
+                continue
+            elif not self.pure(s):
+                raise Unrecognised("statement not understood inside a field: %s" % src(s).split("\n")[0][:80], s)
+        if rd is None:
+            raise Unrecognised("is_tag_next test whose body reads nothing", st)
+        if st.orelse and not only_raise(st.orelse):
+            raise Unrecognised("else-branch of a run-time tag test is not a plain raise", st.orelse[0])
+        group = "alt@%d" % st.lineno
+        for (tag, kind) in fs:
+            f = self.mk(tag, kind, "opt", ver, st, rd)
+            f.alt = group
+            self.fields.append(f)
+        self.add_approx("fields %s: the child is one of %d classes chosen by %s; %s of them is read; %d optional "
+                        "fields are more lenient" % (", ".join("0x%06X" % t for t, _ in fs), len(fs), src(call.func),
+                                                     "exactly one" if st.orelse else "at most one", len(fs)), st)
+        return True
+
     def tagged_if(self, st, tagexpr, ver):
+        if isinstance(tagexpr, ast.Attribute) and tagexpr.attr == "tag" and self.alternatives_if(st, tagexpr.value, ver):
+            return
         tag = self.o.tag_value(tagexpr)
         kind, rd, _ = self.field_body(st.body, tag, st)
         card = "opt"
@@ -1103,6 +1148,7 @@ def class_facts(cls_node, oracle):
 
 def resolve_written(wfields, rfields, cls_node, oracle):
     ctors, insts, opaque = class_facts(cls_node, oracle)
+    out = []
     for f in wfields:
         prov = {}
         tag = kind = None
@@ -1130,8 +1176,20 @@ def resolve_written(wfields, rfields, cls_node, oracle):
                     kind = ks[0]
                     prov["kind"] = "isinstance"
         if tag is None or kind is None:
-            cands = [r for r in rfields if r.slot == f.slot and f.slot is not None
-                     and (r.vmin, r.vmax) == (f.vmin, f.vmax)]
+            cands = [r for r in rfields if r.slot == f.slot and f.slot is not None]
+            if len(cands) > 1 and not getattr(cands[0], "alt", None):
+                # the attribute is filled by different fields under different versions (Template Attribute below 2.0,
+                # Attributes from 2.0): the one with the writer's range, else the one whose range overlaps
+                same = [r for r in cands if (r.vmin, r.vmax) == (f.vmin, f.vmax)]
+                cands = same or [r for r in cands if r.vmin <= f.vmax and f.vmin <= r.vmax]
+            if len(cands) > 1 and len({getattr(r, "alt", None) for r in cands}) == 1 and getattr(cands[0], "alt", None) \
+                    and f.card in ("one", "opt"):
+                # one of several classes chosen by a value: the writer emits whichever the attribute holds
+                for r in cands:
+                    g = Field(r.tag, r.kind, "opt", (f.vmin, f.vmax), f.line, slot=f.slot,
+                              prov={"tag": "read-slot (alternatives)", "kind": "read-slot (alternatives)"})
+                    out.append(g)
+                continue
             if len(cands) != 1:
                 raise Unrecognised("write(): tag / item type of what is written from %s cannot be determined (no "
                                    "constructor, no default, and read() fills %d fields of that attribute under KMIP "
@@ -1144,6 +1202,8 @@ def resolve_written(wfields, rfields, cls_node, oracle):
                 kind = r.kind
                 prov["kind"] = "read-slot"
         f.tag, f.kind, f.prov = tag, kind, prov
+        out.append(f)
+    return out
 
 
 # ---------------------------------------------------------------------------------------------------------
@@ -1204,7 +1264,7 @@ def translate(repo):
                 try:
                     W = Writer(ms["write"], oracle, node)
                     wf = W.run()
-                    resolve_written(wf, rf, node, oracle)
+                    wf = resolve_written(wf, rf, node, oracle)
                 except Unrecognised as e:
                     if not e.reason.startswith("write()"):
                         e.reason = "write(): " + e.reason
